@@ -21,6 +21,6 @@ Lemma opcode_enum_ok :
      Oband; Obor; Obxor; Obclr; Oilt; Oult; Oile; Oule; Oigt; Ougt; Oige; Ouge;
      Oeq; Oneq; Oand; Oor; Onot; Omov; Osmov; Olshift; Orshift; Osrshift;
      Oslice; Oamov; Oindex; Ophi;
-     Ounsupported; Ounsupported; Ounsupported; Ounsupported; Ounsupported;
+     Oconcat; Obts; Obtc; Ounsupported; Ohamming;
      Ounsupported; Ounsupported].
 Proof. vm_compute. reflexivity. Qed.
